@@ -15,7 +15,7 @@ Definition r_doc (ps : list (string * string)) (cs : list jv) : doc :=
   {| d_blueprint := JDict []; d_variables := r_vars ps; d_components := cs |}.
 Definition start (d : doc) : state := {| s_doc := d; s_cache := [] |}.
 
-(* F8 (repaired by 50b0f4f): with the pattern of the pinned code — the component name used as a regular
+(* F8 (repaired by b0741d3): with the pattern of the pinned code — the component name used as a regular
    expression — the well-formed history  query; set_component_variable; query  on component `a+b` answers the
    second query with the configuration cached before the update: the pattern `...:a+b` does not match the label
    `...:a+b`, so the entry is never invalidated. *)
